@@ -208,6 +208,7 @@ def impl(case):
     ft = FenwickTree(case["n"]) if init_vals is None else FenwickTree(init_vals)
     dft = FenwickTree(decoy["n"]) if decoy else None
     outs = []
+    ref = [0] * case["n"] if init_vals is None else list(init_vals)  # the plain array (exact: dyadic values < 2^53)
     for idx, op in enumerate(case["ops"]):
         if dft is not None:
             a, b = decoy["pairs"][idx % len(decoy["pairs"])]
@@ -215,11 +216,21 @@ def impl(case):
             dft.prefix(b)
         if op[0] == 0:
             ft.update(op[1], conv(op[2]))
+            ref[op[1]] += conv(op[2])
         elif op[0] == 1:
             outs.append(Fraction(ft.prefix(op[1])) * sc)
         else:
             outs.append(Fraction(ft.range_sum(op[1], op[2])) * sc)
-    return [[f.numerator, f.denominator] for f in outs]
+    # R_trace for theorem fenwick_updates_eq_rebuild: the internal tree after the history is the very
+    # list the constructor builds from the updated plain array (1 equal, 0 differs, -1 representation not a list `_tree`)
+    flag = -1
+    try:
+        mine, fresh = getattr(ft, "_tree", None), getattr(FenwickTree(list(ref)), "_tree", None)
+        if isinstance(mine, list) and isinstance(fresh, list):
+            flag = 1 if [Fraction(v) for v in mine] == [Fraction(v) for v in fresh] else 0
+    except Exception:
+        flag = -1
+    return [[f.numerator, f.denominator] for f in outs] + [["tree", flag]]
 
 
 def to_request(case, out):
@@ -312,7 +323,12 @@ def judge(ctx, case, out, reply):
         fen_outs, arr_outs = reply
         if fen_outs != arr_outs:
             raise RuntimeError(f"model and reference disagree (contradicts fenwick_refines): {case}")
-        got = [Fraction(a, b) for a, b in out[1]]
+        tree_flag = out[1][-1][1] if out[1] and out[1][-1][0] == "tree" else -1
+        got = [Fraction(a, b) for a, b in out[1] if a != "tree"]
+        ctx.count("fen_tree_vs_rebuild:" + {1: "equal", 0: "differs", -1: "not_observable"}[tree_flag])
+        if tree_flag == 0:
+            ctx.tdiv(fn, {"case": case, "theorem": "fenwick_updates_eq_rebuild",
+                          "what": "internal _tree after the history differs from FenwickTree(updated array)._tree"})
         ctx.count("fen_ctor:" + ("size" if case["init"] is None else "list"))
         qi = 0
         for idx, op in enumerate(case["ops"]):
@@ -364,6 +380,11 @@ def run(ctx, budget):
         if c["kind"] == "fen" and c["init"] is not None and ctx.rng.random() < 0.3:
             c["init_as_tuple"] = True
             ctx.count("presentation:init_as_tuple")
+        if c["kind"] == "fen" and ctx.rng.random() < 0.4:
+            # final sweep: every prefix is queried after the last update, so a corrupted cell of the
+            # implicit tree cannot hide behind the sampled queries
+            c["ops"] = c["ops"] + [[1, i] for i in range(c["n"])]
+            ctx.count("fen_family:final_sweep")
         cases.append(c)
     # a few large structured histories (deep-chain family): cheap for a correct union-find
     for size in ([1200, 1500] if not big else [1200, 1500, 2000, 2500]):
